@@ -35,6 +35,30 @@ func main() {
 // mk ket <mode> <rf> <nq> <spn> <addr>@<az>,... [tenant/name=value/...]...   prints a ket op line
 // (helper for writing corpus files by hand; hashes are computed as the generators do)
 func mkMain(a []string) {
+	if len(a) >= 8 && a[0] == "shard" {
+		// mk shard <za> <rf> <cap> <spn> <addr>@<az>,... <dflt> <ovs> tenant...
+		spn, _ := strconv.Atoi(a[4])
+		var eps []epSpec
+		for _, t := range strings.Split(a[5], ",") {
+			p := strings.SplitN(t, "@", 2)
+			az := ""
+			if len(p) == 2 {
+				az = p[1]
+			}
+			eps = append(eps, epSpec{addr: p[0], az: az, hashes: sectionHashes(p[0], spn)})
+		}
+		ovs, ok := parseShardOvs(a[7])
+		if !ok {
+			fmt.Fprintln(os.Stderr, "bad overrides")
+			os.Exit(2)
+		}
+		reqs := make([]string, 0, len(a)-8)
+		for _, t := range a[8:] {
+			reqs = append(reqs, shardReqToken(a[1] == "1", eps, ovs, t))
+		}
+		fmt.Printf("shard %s %s %s %s %s %s %s\n", a[1], a[2], a[3], showEps(eps), a[6], showShardOvs(ovs), strings.Join(reqs, ";"))
+		return
+	}
 	if len(a) < 6 || a[0] != "ket" {
 		fmt.Fprintln(os.Stderr, "usage: mk ket <mode> <rf> <nq> <spn> <addr>@<az>,... [tenant/name=value/...]...")
 		os.Exit(2)
